@@ -285,3 +285,311 @@ def sym_labels(case):
     if case.get("near"):
         out += [f"near-delta-{case['near']['delta']:g}", "near-in-" + case["near"]["which"]]
     return out
+
+
+# ----------------------------------------------------------------------------------------------------------------
+# round 4: the same request in several presentations (class 11), reporting options / environment (class 13),
+# rejected group specifications (classes 12 and 14)
+# ----------------------------------------------------------------------------------------------------------------
+
+DFORMS_INT = ["f64", "int64", "int32", "uint8", "float32", "readonly", "strided", "c-order", "grown"]
+DFORMS_FLOAT = ["f64", "f64", "float32", "readonly", "strided", "c-order", "grown"]
+
+
+def nperms(groups):
+    out = 1
+    for g in groups:
+        out *= int(np.prod(range(1, len(g) + 1)))
+    return out
+
+
+def _draw_groups(draw, N, big=True):
+    structure = draw(st.sampled_from(["full", "proper", "proper", "several", "several", "pairs"]))
+    order = list(draw(st.permutations(range(N))))
+    if N < 4 and structure in ("several", "pairs"):
+        structure = "proper"
+    if N < 3 and structure == "proper":
+        structure = "full"
+    if structure == "full":
+        groups = [order]
+    elif structure == "proper":
+        groups = [order[:draw(st.integers(2, N - 1))]]
+    elif structure == "several":
+        g = draw(st.integers(2, N // 2))
+        m = draw(st.integers(2, N // g))
+        groups = [order[i * g:(i + 1) * g] for i in range(m)]
+    else:
+        m = draw(st.integers(2, N // 2))
+        groups = [order[2 * i:2 * i + 2] for i in range(m)]
+    return structure, groups
+
+
+def _draw_shape(draw, N, groups, maxcells, sizes=(1, 2, 2, 3, 3)):
+    shape = [0] * N
+    for g in groups:
+        s = draw(st.sampled_from(list(sizes)))
+        for mo in g:
+            shape[mo] = s
+    for k in range(N):
+        if shape[k] == 0:
+            shape[k] = draw(st.integers(1, 3))
+    while ref.prod(shape) > maxcells:
+        k = int(np.argmax(shape))
+        s = shape[k] - 1
+        for g in groups:
+            if k in g:
+                for mo in g:
+                    shape[mo] = s
+                break
+        else:
+            shape[k] = s
+    return shape
+
+
+@st.composite
+def pres_case(draw, tier):
+    """Orders 2..6 with one or several groups; data random / symmetric / symmetric in a sub-group only (the first two
+    listed modes of a group, the last two, its first and last) / in some groups only; the data held in one of the forms
+    a caller may hand over (DFORMS_*)."""
+    maxcells = 200 if tier == "quick" else 400
+    N = draw(st.sampled_from([2, 3, 3, 4, 4, 5, 5, 5, 6, 6, 6]))
+    structure, groups = _draw_groups(draw, N)
+    shape = _draw_shape(draw, N, groups, maxcells)
+    vkind = draw(st.sampled_from(["int", "float"]))
+    n = ref.prod(shape)
+    data = draw(st.lists(gen.values(vkind), min_size=n, max_size=n))
+    A = gen.arr_F(shape, data)
+    dclass = draw(st.sampled_from(["random", "symmetric", "sub-first2", "sub-first2", "sub-last2", "sub-last2",
+                                   "sub-nonadjacent", "sub-nonadjacent", "one-group-only", "all-but-last-group",
+                                   "one-entry-off"]))
+    sub = None
+    if dclass.startswith("sub-"):
+        cand = [i for i, g in enumerate(groups) if len(g) >= 3] or [i for i, g in enumerate(groups) if len(g) >= 2]
+        gi = draw(st.sampled_from(cand))
+        g = groups[gi]
+        pair = [g[0], g[1]] if dclass == "sub-first2" else ([g[-2], g[-1]] if dclass == "sub-last2" else [g[0], g[-1]])
+        others = [x for i, x in enumerate(groups) if i != gi] if draw(st.booleans()) else []
+        A = make_symmetric(A, [pair] + others)
+        sub = dict(group=gi, pair=pair, others_symmetric=bool(others))
+    elif dclass == "symmetric":
+        A = make_symmetric(A, groups)
+    elif dclass == "one-group-only":
+        A = make_symmetric(A, [groups[draw(st.integers(0, len(groups) - 1))]])
+    elif dclass == "all-but-last-group":
+        A = make_symmetric(A, groups[:-1])
+    elif dclass == "one-entry-off":
+        A = make_symmetric(A, groups)
+        s0 = ref.all_subs_F(shape)[draw(st.integers(0, n - 1))]
+        A[s0] = A[s0] + (1.0 if vkind == "int" else 0.5)
+    dform = draw(st.sampled_from(DFORMS_INT if vkind == "int" else DFORMS_FLOAT))
+    if dform == "uint8":
+        A = np.abs(A)
+    if dform == "float32":
+        A = A.astype(np.float32).astype(float)
+    return dict(shape=shape, data=[float(x) for x in A.flatten(order="F")], groups=groups, data_class=dclass, vkind=vkind,
+                structure=structure, dform=dform, sub=sub, size_mismatch=False,
+                psel=draw(st.lists(st.integers(0, 40), min_size=4, max_size=4)),
+                gperm=draw(st.permutations(range(len(groups)))), mperm=draw(st.permutations(range(len(groups[0])))))
+
+
+def build_form(case):
+    """(tensor, array it denotes) with the data handed over in the form case['dform']."""
+    import pyttb as ttb
+    A = gen.arr_F(case["shape"], case["data"])
+    shape, f = tuple(case["shape"]), case.get("dform", "f64")
+    if f in ("int64", "int32", "uint8", "float32"):
+        X = ttb.tensor(A.astype({"int64": np.int64, "int32": np.int32, "uint8": np.uint8, "float32": np.float32}[f])
+                       .copy(order="F"), shape)
+    elif f == "readonly":
+        B = A.copy(order="F")
+        B.flags.writeable = False
+        X = ttb.tensor(B, shape, copy=False)
+    elif f == "strided":
+        big = np.zeros((2 * shape[0],) + shape[1:], order="F")
+        big[::2] = A
+        big[1::2] = -7.0
+        X = ttb.tensor(big[::2], shape, copy=False)
+    elif f == "c-order":
+        X = ttb.tensor(np.ascontiguousarray(A), shape)
+    elif f == "grown":
+        X = gen.build_tensor(dict(case, prov="grown"))
+    else:
+        X = ttb.tensor(A.copy(order="F"), shape)
+    return X, A
+
+
+def grps_presentations(case):
+    """[(name, argument, same_order)]: the group specification of the case in the forms a caller may use.  same_order:
+    the argument lists the same groups in the same order with the same order of modes in each (the computation is then
+    the same one and the answer must be the same bit for bit); otherwise the same request up to the order in which
+    groups / modes are listed (same set of permutations: same boolean, same average up to rounding)."""
+    G = [list(g) for g in case["groups"]]
+    m, g = len(G), len(G[0])
+    base = np.array(G, dtype=np.int64)
+    out = []
+
+    def add(name, arr):
+        out.append((name, arr, arr is not None and np.array_equal(np.atleast_2d(np.asarray(arr)), base)))
+
+    if m == 1:
+        add("1d", np.array(G[0], dtype=np.int64))
+        add("1d-int32", np.array(G[0], dtype=np.int32))
+        add("1d-uint8-arange-like", np.array(G[0], dtype=np.uint8))
+        wide = np.zeros(2 * g, dtype=np.int64)
+        wide[::2] = G[0]
+        add("1d-strided", wide[::2])
+        add("1d-negative-stride", np.array(G[0][::-1], dtype=np.int64)[::-1])
+        if sorted(G[0]) == list(range(len(case["shape"]))):
+            out.append(("none", None, G[0] == sorted(G[0])))
+    for dt in (np.int32, np.uint8, np.uint16, np.uint64, np.int8, np.int16, np.uint32, np.intp):
+        add("2d-" + np.dtype(dt).name, base.astype(dt))
+    add("2d-f-order", np.asfortranarray(base))
+    ro = base.copy()
+    ro.flags.writeable = False
+    add("2d-readonly", ro)
+    big = np.full((m, 2 * g), 99, dtype=np.int64)
+    big[:, ::2] = base
+    add("2d-strided-columns", big[:, ::2])
+    big = np.full((2 * m, g), 99, dtype=np.int32)
+    big[::2] = base
+    add("2d-strided-rows-int32", big[::2])
+    add("2d-negative-strides", base[::-1, ::-1].copy()[::-1, ::-1])
+    if m > 1:
+        add("groups-reversed", base[::-1].copy())
+        add("groups-permuted", base[list(case["gperm"])].copy())
+    if g > 1:
+        add("modes-reversed", base[:, ::-1].copy())
+        add("modes-ascending", np.sort(base, axis=1))
+        add("modes-descending", -np.sort(-base, axis=1))
+        add("modes-permuted", base[:, list(case["mperm"])].copy())
+        add("modes-rotated-uint8", np.roll(base, 1, axis=1).astype(np.uint8))
+    return out
+
+
+OLD_VERSION_FORMS = [("kw", 1), ("pos", 1), ("pos", "np.int64(1)"), ("kw", "np.int32(2)"), ("kw", 0), ("pos", "np.int64(0)"),
+                     ("kw", True), ("pos", "old"), ("kw", "np.uint8(1)"), ("kw", 1.0)]
+
+
+def version_value(v):
+    return {"np.int64(1)": np.int64(1), "np.int32(2)": np.int32(2), "np.int64(0)": np.int64(0),
+            "np.uint8(1)": np.uint8(1)}.get(v, v) if isinstance(v, str) else v
+
+
+def pres_labels(case):
+    N, g = len(case["shape"]), case["groups"]
+    out = [f"order{N}", "grp-" + case["structure"], "data-" + case["data_class"], case["vkind"], "dform-" + case["dform"],
+           f"groups-{len(g)}x{len(g[0])}"]
+    if any(sorted(x) != list(x) for x in g):
+        out.append("group-unsorted")
+    if any(list(x) == sorted(x, reverse=True) and len(x) >= 2 for x in g):
+        out.append("group-descending")
+    if len(set(case["shape"])) > 1:
+        out.append("non-cubical")
+    if case.get("sub"):
+        out.append("sub-pair-others-symmetric" if case["sub"]["others_symmetric"] else "sub-pair-others-generic")
+        pr = case["sub"]["pair"]
+        if abs(pr[0] - pr[1]) > 1:
+            out.append("sub-pair-modes-not-adjacent")
+    return out
+
+
+class debug_logging:
+    """root logger at DEBUG with a NullHandler and logging enabled (core.evaluate disables it), restored on exit"""
+
+    def __enter__(self):
+        import logging
+        self.root = logging.getLogger()
+        self.level, self.disabled = self.root.level, self.root.manager.disable
+        self.handlers = list(self.root.handlers)     # (logging.warning() installs a stderr handler on first use)
+        self.root.handlers = [logging.NullHandler()]
+        self.root.setLevel(logging.DEBUG)
+        logging.disable(logging.NOTSET)
+        return self
+
+    def __exit__(self, *a):
+        import logging
+        self.root.handlers = self.handlers
+        self.root.setLevel(self.level)
+        logging.disable(self.disabled)
+        return False
+
+
+# ---- rejected group specifications
+
+BAD_KINDS = ["mismatch", "mismatch", "overlap", "overlap", "out-of-range", "list-of-lists", "tuple", "empty-group",
+             "duplicate-in-group", "float-array"]
+
+
+@st.composite
+def bad_case(draw, tier):
+    """A valid request (shape, groups) made ill-formed in one way, every other extent compatible (often 1)."""
+    kind = draw(st.sampled_from(BAD_KINDS))
+    N = draw(st.sampled_from([2, 3, 3, 4, 4, 4, 5, 6]))
+    structure, groups = _draw_groups(draw, N)
+    if kind == "overlap" and draw(st.booleans()):
+        # three or more groups, so that the groups sharing a mode need not be neighbours in the listing
+        N = 6
+        order = list(draw(st.permutations(range(N))))
+        structure, groups = "pairs", [order[0:2], order[2:4], order[4:6]]
+    if kind == "mismatch" and draw(st.booleans()) and N >= 3:
+        # a group of three or more modes, so that the odd size need not be among the first two listed
+        order = list(draw(st.permutations(range(N))))
+        structure, groups = "proper" if N > 3 else "full", [order[:draw(st.integers(3, max(3, N - 1)))]]
+    groups = [list(g) for g in groups]
+    s = draw(st.sampled_from([1, 1, 2, 2, 3]))
+    same = draw(st.booleans()) or kind in ("overlap", "out-of-range")
+    if same:
+        shape = [s] * N          # every extent the same (1 often): nothing but the ill-formed part distinguishes the modes
+    else:
+        shape = _draw_shape(draw, N, groups, 120)
+    bad = [list(g) for g in groups]
+    note = None
+    if kind == "mismatch":
+        gi = draw(st.sampled_from([i for i, g in enumerate(groups) if len(g) >= 2] + [len(groups) - 1]))
+        pos = draw(st.integers(0, len(groups[gi]) - 1))
+        mo = groups[gi][pos]
+        old = shape[mo]
+        new = draw(st.sampled_from([x for x in (1, 2, 3, 4) if x != old]))
+        shape[mo] = new
+        while ref.prod(shape) > 240:
+            k = int(np.argmax(shape))
+            shape[k] -= 1
+        if len({shape[x] for x in groups[gi]}) == 1:      # (shrinking undid it)
+            shape = [1] * N
+            shape[mo] = 2
+        note = dict(group=gi, pos=pos)
+    elif kind == "overlap":
+        if len(groups) < 2:
+            # a second group of the same length that shares a mode with the first
+            g0 = groups[0]
+            rest = [x for x in range(N) if x not in g0]
+            keep = draw(st.integers(1, len(g0)))
+            second = list(draw(st.permutations(g0)))[:keep] + rest
+            second = second[:len(g0)]
+            if len(second) < len(g0) or len(set(second)) < len(second):
+                second = list(reversed(g0))
+            bad = [list(g0), second]
+        else:
+            i, j = sorted(draw(st.permutations(range(len(groups))))[:2])
+            if len(groups) >= 3 and draw(st.booleans()):
+                i, j = 0, len(groups) - 1
+            src, dst = (i, j) if draw(st.booleans()) else (j, i)
+            bad[dst][draw(st.integers(0, len(bad[dst]) - 1))] = groups[src][draw(st.integers(0, len(groups[src]) - 1))]
+            note = dict(pair=[i, j])
+    elif kind == "out-of-range":
+        gi = draw(st.integers(0, len(groups) - 1))
+        bad[gi][draw(st.integers(0, len(bad[gi]) - 1))] = N + draw(st.sampled_from([0, 0, 1, 7]))
+    elif kind == "empty-group":
+        bad = [[]]
+    elif kind == "duplicate-in-group":
+        gi = draw(st.integers(0, len(groups) - 1))
+        bad[gi] = [bad[gi][0]] * len(bad[gi])
+    n = ref.prod(shape)
+    vkind = draw(st.sampled_from(["int", "float"]))
+    data = draw(st.lists(gen.values(vkind), min_size=n, max_size=n))
+    if draw(st.integers(0, 3)) == 0:
+        data = [data[0] if data[0] else 2.0] * n      # constant data: every reshuffling of the entries looks the same
+    return dict(shape=shape, data=data, groups=groups, bad=bad, kind=kind, vkind=vkind, structure=structure, note=note,
+                dform=draw(st.sampled_from(["f64", "f64", "grown", "readonly", "int64" if vkind == "int" else "c-order"])),
+                gdtype=draw(st.sampled_from(["int64", "int64", "int32", "uint8"])),
+                form=draw(st.sampled_from(["2d", "2d", "1d"])), data_class="random", size_mismatch=False)
